@@ -4,13 +4,19 @@
    peers and dials them); that the real nodes perform that step within the announce interval,
    also behind address-filtering NATs, is decided by the executed correspondence over all connected
    bootstrap graphs of 2-4 nodes, sampled 5-node graphs and NAT scenarios (py/props/c14.py). *)
-From VpnModel Require Import Base Conn PeerCrypto NodeInfo Node NodeProofs.
+From VpnModel Require Import Base Conn PeerCrypto NodeInfo Table Node NodeProofs TrustProofs NextHopProofs PcInvariant AdmissionProofs SelfProofs.
 
 (* a handshake message carrying the node's own id is rejected at every stage, by whatever address it arrived (after the fix of F13): object unchanged, no reply *)
 Theorem C14_own_message_rejected : forall ok s m, im_node m = i_node s ->
   (snd (fst (handle_init ok s m)) = Err 1 \/ snd (fst (handle_init ok s m)) = Err 2) /\
   fst (fst (handle_init ok s m)) = s /\ snd (handle_init ok s m) = None.
 Proof. exact own_message_rejected. Qed.
+
+(* WHOLE RUNS: every peer of every reachable node state (any events, times, salts) was admitted by a handshake message carrying ANOTHER node's id - a node never peers with itself, through whatever address its own messages come back (every handshake object keeps the node number it was created with: invariant NI through PcInvariant.v; a handshake completes only on a message of another node: success_not_self) *)
+Theorem C14_never_peers_with_itself : forall salts c t0 evs a,
+  ahas (n_peers (nrun salts (node_new c t0) evs)) a = true ->
+  exists now m, In (now, ENet a (WInit m)) evs /\ im_node m <> c_num c.
+Proof. exact never_peers_with_itself. Qed.
 
 (* addresses listed under the node's own id are added to its own addresses, nothing is dialled, no peer or pending entry appears *)
 Theorem C14_own_addresses_adopted : forall salts n p, pi_node p = Some (node_id_bytes (c_num (n_cfg n))) ->
@@ -31,4 +37,5 @@ Print Assumptions C14_closure.
 Print Assumptions C14_round_shortens.
 
 Print Assumptions C14_own_message_rejected.
+Print Assumptions C14_never_peers_with_itself.
 Print Assumptions C14_own_addresses_adopted.
